@@ -365,14 +365,5 @@ def run(ctx):
     # a treeless literals section is decoded with the table of the last *transmitted* description: the compressor may
     # only remember a table whose description it actually wrote and kept (same rule instances as C02.pair.huffman-commit)
     from . import c02
-    start = len(ctx.obs)
-    c02.run(ctx)
-    keep = []
-    for o in ctx.obs[start:]:
-        if o.rule == "C02.pair.huffman-commit":
-            o.rule = "C13.pair.huffman-commit"
-            keep.append(o)
-    ctx.obs[start:] = keep
-    ctx.notes[:] = [n_ for n_ in ctx.notes if "INFO latent" not in n_]
-    ctx.floor("C13.pair.huffman-commit", len(keep), 4, "remembered-table obligations")
+    ctx.include(c02, "C13", select=lambda o: o.rule == "C02.pair.huffman-commit", floor=4)
     ctx.floor("C13.all", len([o for o in ctx.obs if o.cfg == ctx.cfg]), 24, "C13 obligations")
